@@ -13,9 +13,9 @@ same list/scan fallback order, same comparator. Conventions:
   `C03.less_strict_total` shows the maximum does not depend on the iteration order;
 * capability bitmaps are `Nat` (`x & CapInt > 0` is `Nat.testBit x i`), durations are whole seconds (`Int`);
 * Go `map[string][]any` = association list with unique keys (`PMap`); parameter values are `PVal`;
-* deep copies (`Clone`, `copystructure.Copy`) are the identity on values: the model has no aliasing. The
-  aliasing that the real `NewACL` has (it appends to slices owned by the cached `*Policy`) is therefore a
-  model/implementation difference that the correspondence stream exposes (finding, see props/C03.py);
+* deep copies (`Clone`, `copystructure.Copy`, `slices.Clone`) are the identity on values: the model has no aliasing.
+  Aliasing in the real `NewACL` (it used to append to slices owned by the cached `*Policy`: F18, repaired) is a
+  model/implementation difference that the correspondence stream exposes (shared-object cases, see props/C03.py);
 * control groups, MFA lists, granting-policy lists, `ResponseKeysFilterPath`, path expiration and identity
   templating are not modelled (DESIGN.md section 5, C03 "Limits").
 -/
@@ -130,7 +130,7 @@ structure SrcRule where
   deriving Repr
 
 inductive ParseErr where
-  | plusStar | badPolicy | badCap | ttl
+  | plusStar | badPolicy | badCap | dupParam | negTTL | ttl
   deriving DecidableEq, Repr
 
 /-- does the byte pair `a b` occur in the path (`strings.Contains`/`strings.Count > 0` for two-byte needles) -/
@@ -161,6 +161,10 @@ def legacyCaps (r : SrcRule) : Except ParseErr (List String) :=
   else if r.legacy = "sudo" then .ok (r.caps ++ ["create", "read", "update", "delete", "list", "sudo"])
   else .error .badPolicy
 
+/-- two parameter names of one `allowed_parameters` / `denied_parameters` object are equal after lower-casing
+(refused by `parsePaths` since the repair of F21: the surviving value list depended on Go's map iteration order) -/
+def hasDupLower (m : PMap) : Bool := !decide ((m.map fun kv => lower kv.1).Nodup)
+
 /-- the permissions of a stanza from its (effective) capability list and its fine-grained fields; `deny` jumps to
 `PathFinished` and leaves everything else unset -/
 def parsePerms (r : SrcRule) (caps : List String) : Except ParseErr Perms :=
@@ -170,7 +174,11 @@ def parsePerms (r : SrcRule) (caps : List String) : Except ParseErr Perms :=
   | .ok (some bits) =>
     let minT := r.minTTL.getD 0
     let maxT := r.maxTTL.getD 0
-    if minT ≠ 0 ∧ maxT ≠ 0 ∧ maxT < minT then .error .ttl
+    if hasDupLower (r.allowed.getD []) then .error .dupParam
+    else if hasDupLower (r.denied.getD []) then .error .dupParam
+    else if minT < 0 then .error .negTTL          -- refused since the repair of F19
+    else if maxT < 0 then .error .negTTL
+    else if minT ≠ 0 ∧ maxT ≠ 0 ∧ maxT < minT then .error .ttl
     else .ok { caps := bits, minTTL := minT, maxTTL := maxT,
                allowed := lowerKeys (r.allowed.getD []), denied := lowerKeys (r.denied.getD []),
                required := r.required, pag := r.pag }
@@ -187,14 +195,26 @@ def parseRule (r : SrcRule) : Except ParseErr PathRule :=
     | .error e => .error e
     | .ok perms => .ok { path := if strip then p.dropLast else p, isPrefix := strip, hasSW, perms }
 
-def parsePolicy (name : String) : List SrcRule → Except ParseErr Policy
-  | rs => do
-    let paths ← rs.mapM parseRule
-    pure { name, paths }
+/-- the stanzas of one policy in order; the first error fails the whole policy -/
+def parseRules : List SrcRule → Except ParseErr (List PathRule)
+  | [] => .ok []
+  | r :: rs =>
+    match parseRule r with
+    | .error e => .error e
+    | .ok pr =>
+      match parseRules rs with
+      | .error e => .error e
+      | .ok prs => .ok (pr :: prs)
+
+def parsePolicy (name : String) (rs : List SrcRule) : Except ParseErr Policy :=
+  match parseRules rs with
+  | .error e => .error e
+  | .ok paths => .ok { name, paths }
 
 /-- `parsePaths` lower-cases parameter names while ranging over the decoded HCL object, a Go map:
 `for k, v := range pc.AllowedParametersHCL { m[strings.ToLower(k)] = v }`. When two names differ only in case the
-surviving value list depends on the iteration order. `pmStable m`: no such pair with different value lists. -/
+surviving value list would depend on the iteration order. `pmStable m`: no such pair with different value lists.
+(Since the repair of F21 such a stanza is a parse error, so `parseStable` is always true: `C03.parse_stable`.) -/
 def pmStable (m : PMap) : Bool :=
   m.all fun kv => m.all fun kv' => lower kv.1 != lower kv'.1 || kv.2 == kv'.2
 
